@@ -1,1 +1,74 @@
-From CG Require Import Spec.Sets.
+(* Props/C17.v — C17: buffer and merge_within transform each event exactly.
+   Statements only (Proofs/Transform.v). *)
+From CG Require Import Proofs.Defs Spec.TransformSpec Proofs.Stored Proofs.Transform.
+
+(* merge_within: for every source stream sorted by start (overlapping, nested, unbounded
+   events) and every gap >= 0 the result meets the declarative spec of Spec/TransformSpec.v:
+   outputs pairwise more than gap apart, every source event inside exactly one output, each
+   output = [first start, furthest end] of a chain linked by gaps <= gap, first event's metadata *)
+Theorem C17_merge_within_spec : forall g src,
+  0 <= g -> Forall wf_ivl src -> Forall canon_ivl src -> sorted_start src ->
+  mw_spec_ok g src (mw g src) = true.
+Proof. exact mw_spec. Qed.
+Print Assumptions C17_merge_within_spec.
+
+Theorem C17_merge_within_never_joins_far_events : forall g src,
+  0 <= g -> Forall wf_ivl src -> Forall canon_ivl src -> sorted_start src ->
+  far_apartP g (mw g src).
+Proof. exact mw_far_apart. Qed.
+Print Assumptions C17_merge_within_never_joins_far_events.
+
+Theorem C17_merge_within_groups : forall g src o,
+  0 <= g -> Forall wf_ivl src -> Forall canon_ivl src -> sorted_start src -> In o (mw g src) ->
+  exists x grp, filter (inside_ivl o) src = x :: grp /\ st o = st x /\ fstart o = fstart x /\ pl o = pl x /\
+    fend o = max_end grp (fend x) /\ (forall y, In y grp -> fend y <= fend o) /\
+    (forall l1 y l2, grp = l1 ++ y :: l2 -> fstart y - max_end l1 (fend x) <= g).
+Proof. exact mw_group_shape. Qed.
+Print Assumptions C17_merge_within_groups.
+
+(* a window containing all events yields the exact global merge; reverse = reversed *)
+Theorem C17_merge_within_global : forall env evs g a b,
+  (forall x, In x evs -> in_range a b x = true) ->
+  fetch env (MergeW (Stored evs) g) a b false = mw g (sl_build evs).
+Proof. exact mw_window_global_stored. Qed.
+Print Assumptions C17_merge_within_global.
+
+Theorem C17_merge_within_reverse : forall env s g a b,
+  fetch env (MergeW s g) a b false = mw g (fetch env s a b false) /\
+  fetch env (MergeW s g) a b true = rev (mw g (fetch env s a b false)).
+Proof. exact fetch_mergew. Qed.
+Print Assumptions C17_merge_within_reverse.
+
+(* buffer: every stored event whose EXTENDED span meets the window is returned, extended by
+   exactly the amounts, metadata intact — including events lying outside the window *)
+Theorem C17_buffer_reaches_in : forall env evs before after a b rv x,
+  0 <= before -> 0 <= after -> In x evs -> wf_ivl x -> overlaps_win a b (buf_shift before after x) ->
+  In (buf_shift before after x) (fetch env (Buf (Stored evs) before after) a b rv).
+Proof. exact buf_reach_in. Qed.
+Print Assumptions C17_buffer_reaches_in.
+
+Theorem C17_buffer_sound : forall env evs before after a b rv y,
+  In y (fetch env (Buf (Stored evs) before after) a b rv) -> exists x, In x evs /\ y = buf_shift before after x.
+Proof. exact buf_fetch_sound. Qed.
+Print Assumptions C17_buffer_sound.
+
+Theorem C17_buffer_exact : forall env evs before after a b,
+  0 <= before -> 0 <= after ->
+  flat_map (clipW a b) (fetch env (Buf (Stored evs) before after) a b false) =
+  flat_map (clipW a b) (map (buf_shift before after) (sl_build evs)).
+Proof. exact buf_clip_exact. Qed.
+Print Assumptions C17_buffer_exact.
+
+Example C17_nonvacuous :
+  let src := [mkI (Some 0) (Some 10) (Rich 1); mkI (Some 2) (Some 4) (Rich 2); mkI (Some 12) (Some 13) (Rich 3);
+              mkI (Some 20) None (Rich 4); mkI (Some 50) (Some 60) (Rich 5)] in
+  Forall wf_ivl src /\ Forall canon_ivl src /\ sorted_start src /\
+  mw 2 src = [mkI (Some 0) (Some 13) (Rich 1); mkI (Some 20) None (Rich 4)].
+Proof.
+  cbv zeta. split; [|split; [|split]].
+  - repeat constructor; unfold wf_ivl, fstart, fend, NEG_INF, POS_INF; simpl; lia.
+  - repeat (apply Forall_cons; [unfold canon_ivl, NEG_INF, POS_INF; simpl; split; congruence|]); apply Forall_nil.
+  - simpl. unfold fstart; simpl. repeat split; intros y Hy;
+      repeat (destruct Hy as [<-|Hy]; [simpl; lia|]); try contradiction.
+  - vm_compute. reflexivity.
+Qed.
